@@ -71,6 +71,19 @@ func specVarint(b []byte) (v uint64, n int) {
 	return 0, 0
 }
 
+// specPutVarint encodes v as an offset varint and returns its length.
+func specPutVarint(out []byte, v uint64) int {
+	var tmp [10]byte
+	i := 9
+	tmp[i] = byte(v & 0x7f)
+	for v >>= 7; v != 0; v >>= 7 {
+		v--
+		i--
+		tmp[i] = 0x80 | byte(v&0x7f)
+	}
+	return copy(out, tmp[i:])
+}
+
 // specDecodeBlock parses one block starting at data[pos:]; hdr is the number
 // of file-header bytes preceding the block header (first block only).
 func specDecodeBlock(data []byte, pos uint64, hdr int, hashSize int, bodyEnd int) (blk specBlock, ok bool) {
